@@ -58,7 +58,27 @@ def special_cases():
     for al, path in (("os", gen.FX), ("fmt", gen.FX), ("github.com", gen.FX), ("errors", gen.FX), ("context", gen.FX)):
         out.append({"meta": {"imports": {"fx": gen.FX, al: path}, "pkg": "gen"}, "parameters": {"e": '%env("X", "d")%'},
                     "services": {"a": {"constructor": "fx.NewA", "getter": "GetA"}, "t": {"todo": True}}})
+    # identifiers the templates declare themselves: helper methods of the container type (from the regenerated symbolic
+    # rendering), template-local names, Go's special function names, a generated import alias — at every configurable position
+    S = {"type": "*int"}
+    for nm in template_helper_methods() + ["_", "_x"]:
+        out.append({"meta": dict(fx), "services": {"s": dict(S, getter=nm)}})
+        out.append({"meta": dict(fx, container_type=nm), "services": {"s": dict(S)}})
+        out.append({"meta": dict(fx, container_constructor=nm), "services": {"s": dict(S)}})
+    for nm in TEMPLATE_LOCALS + ["c", "s", "result", "err", "ctx", "r", "dependencyService", "newService", "getParam", "Container"]:
+        out.append({"meta": dict(fx, container_type=nm), "services": {"s": dict(S, getter="G", must_getter=True)}, "parameters": {"p": "%env(\"X\", \"d\")%"}})
+        out.append({"meta": dict(fx, container_constructor=nm), "services": {"s": dict(S, getter="G", must_getter=True)}, "parameters": {"p": "x%p2%", "p2": 1}})
+        out.append({"meta": dict(fx), "services": {"s": dict(S, getter=nm)}})
+    out.append({"meta": {"pkg": "main", "container_constructor": "main"}, "services": {"s": dict(S)}})
     return out
+
+
+TEMPLATE_LOCALS = ["init", "rootGontainer", "interface_", "i0_container", "i1_context"]
+
+
+def template_helper_methods():
+    src = open(os.path.join(core.LEAN, "GontainerModel", "Generated", "Stub.lean")).read()
+    return sorted(set(re.findall(r"func \(c \*⟦\$containerType⟧\) (_\w+)\(", src)))
 
 
 TEMPLATE_IMPORTS = ["context", "errors", "fmt", "os", "reflect", "strconv", "github.com/gontainer/gontainer-helpers/v3"]
@@ -74,6 +94,10 @@ def classify(msgs, files):
         for a in re.findall(r'"([^"]+)": "', m.group(1)):
             if any(t == a or t.startswith(a + "/") for t in TEMPLATE_IMPORTS):
                 return "D10:user-alias-prefix-of-template-import"
+    for m in re.finditer(r'"(container_type|container_constructor)": "([^"]+)"', y):
+        nm = m.group(2)
+        if nm in ("init", "rootGontainer", "interface_") or re.fullmatch(r"i[0-9a-f]+_\w+", nm) or (nm == "main" and '"pkg": "main"' in y):
+            return "D14:meta-name-collides-with-template-identifier"
     msg = re.sub(r"g\d+s?/gen(_stub)?\.go:\d+:\d+", "gen.go", msgs[0])
     msg = re.sub(r"probe/g\d+s?", "probe/gN", msg)
     return "typecheck:" + re.sub(r"[^A-Za-z.: ]+", "", msg)[:80]
